@@ -103,6 +103,7 @@ func runUpgradeCase(ta *TestApp, seed uint64, idx int, rep *Report, profile stri
 	hasOwner := rng.Chance(85)
 	hasValPool := rng.Chance(85)
 	hasType := rng.Chance(85)
+	preexistingNewType := false
 	if hasOwner {
 		lo := legacyOwner{addr: owner}
 		if rng.Chance(60) {
@@ -187,6 +188,14 @@ func runUpgradeCase(ta *TestApp, seed uint64, idx int, rep *Report, profile stri
 		vts.VestingTypes = append(vts.VestingTypes, &vesttypes.VestingType{Name: "Validators", LockupPeriod: 100 * time.Hour, VestingPeriod: 200 * time.Hour, Free: sdk.NewDecWithPrec(5, 2)})
 	}
 	vts.VestingTypes = append(vts.VestingTypes, &vesttypes.VestingType{Name: "Advisors", LockupPeriod: time.Hour, VestingPeriod: time.Hour, Free: sdk.ZeroDec()})
+	if rng.Chance(15) {
+		// a vesting type that already carries the name of one the upgrade defines (it is redefined; the split must not stop half-way)
+		nm := []string{"VC round", "Early-bird round", "Public round", "Strategic reserve short term round"}[rng.Intn(4)]
+		vts.VestingTypes = append(vts.VestingTypes, &vesttypes.VestingType{Name: nm, LockupPeriod: 7 * time.Hour, VestingPeriod: 9 * time.Hour, Free: sdk.NewDecWithPrec(1, 2)})
+		preexistingNewType = true
+		_ = preexistingNewType
+		rep.Count("legacy.vesting_type_named_like_an_upgrade_type")
+	}
 	k.SetVestingTypes(ctx, vts)
 
 	// ---- the four accounts whose schedule is shifted
@@ -292,6 +301,7 @@ func runUpgradeCase(ta *TestApp, seed uint64, idx int, rep *Report, profile stri
 		}
 		modelPools = "(Some " + zList(ps) + ")"
 	}
+	vtypesBefore := fmt.Sprint(k.GetAllVestingTypes(ctx))
 	preAll := k.GetAllAccountVestingPools(ctx)
 	preTotal := sdk.ZeroInt()
 	for _, avp := range preAll {
@@ -398,9 +408,14 @@ func runUpgradeCase(ta *TestApp, seed uint64, idx int, rep *Report, profile stri
 	applied := ownerFound && len(ownerPost.VestingPools) == len(ownerPre.VestingPools)+4
 	unchanged := !ownerFound || fmt.Sprint(ownerPost.VestingPools) == fmt.Sprint(ownerPre.VestingPools)
 	_, oldTypeErr := k.GetVestingType(ctx, "Validators")
-	_, newTypeErr := k.GetVestingType(ctx, "VC round")
-	typesApplied := oldTypeErr != nil && newTypeErr == nil && hasType
-	typesUnchanged := (oldTypeErr == nil) == hasType && newTypeErr != nil
+	newTypesThere := true
+	for _, nm := range []string{"Validator round", "VC round", "Early-bird round", "Public round", "Strategic reserve short term round"} {
+		if _, e := k.GetVestingType(ctx, nm); e != nil {
+			newTypesThere = false
+		}
+	}
+	typesApplied := oldTypeErr != nil && newTypesThere && hasType
+	typesUnchanged := fmt.Sprint(k.GetAllVestingTypes(ctx)) == vtypesBefore
 	rep.Eval("C16.split_all_or_nothing", (applied && typesApplied) || (unchanged && typesUnchanged), idx, 1,
 		fmt.Sprintf("pools applied=%v unchanged=%v; types applied=%v unchanged=%v", applied, unchanged, typesApplied, typesUnchanged))
 	// C17: the upgrade gives the genesis mark to the Advisors pool, the Validators pool and the pools split out of it — to no other
